@@ -22,8 +22,8 @@
     data object has been created and not finalized. *)
 From Coq Require Import List ZArith Bool Lia Arith.
 Import ListNotations.
-From TI Require Import model.Iter proofs.IterFinalProofs proofs.IterFinalExamples
-     lib.Eff lib.EffSound lib.EffRun gen.Skeletons proofs.SkelC10 proofs.SkelC10Extra.
+From TI Require Import model.Iter model.IterFin proofs.IterFinalProofs proofs.IterFinRaiseProofs
+     proofs.IterFinalExamples lib.Eff lib.EffSound lib.EffRun gen.Skeletons proofs.SkelC10 proofs.SkelC10Extra.
 Open Scope Z_scope.
 
 (** [_finalize_render_data_] runs at most once on the iterator's data, whatever the history
@@ -148,6 +148,124 @@ Theorem C10_finalize_idempotent :
     (finalized g = true -> data_finalize g = g).
 Proof. exact finalize_idempotent. Qed.
 Print Assumptions C10_finalize_idempotent.
+
+(** ** Part 1b: the finalizer itself may raise
+
+    [IterFin] (model/IterFin.v) runs [Iter] with an oracle [fr : nat -> bool]: the k-th
+    invocation of [_finalize_render_data_] on the data raises iff [fr k].  As in the code
+    ([RenderData.finalize()]: flag set in a [finally]; [close()] as repaired by
+    pending_fixes/C10_close_finalizer_raises.diff: [_closed] set in a [finally]) the
+    exception propagates out of [close()], [__del__], and [next()] (in place of
+    StopIteration / the render error): outcome [FRaised x].  For ALL oracles. *)
+
+(** the wrapper's states are [Iter]'s, its trace is [Iter]'s once "the finalizer's
+    exception propagated instead" is erased: so every theorem of Part 1 holds verbatim
+    of [frun] *)
+Theorem C10_frun_run :
+  forall RS render n term fr ops (s : state RS),
+    frun RS render n term fr s ops = run RS render n term s ops.
+Proof. exact frun_run. Qed.
+Print Assumptions C10_frun_run.
+
+Theorem C10_ftrace_unraise :
+  forall RS render n term fr ops (s : state RS),
+    map (fun p => (unraise (fst p), snd p)) (ftrace RS render n term fr s ops) = trace RS render n term s ops.
+Proof. exact ftrace_unraise. Qed.
+Print Assumptions C10_ftrace_unraise.
+
+(** at most one invocation of the finalizer even when it raises *)
+Theorem C10_fin_at_most_once_raising :
+  forall RS render n term fr c rs0 s ops,
+    mk RS n term c rs0 = inl s ->
+    (fin_calls (gh (frun RS render n term fr s ops)) <= 1)%nat.
+Proof. exact fin_at_most_once_raising. Qed.
+Print Assumptions C10_fin_at_most_once_raising.
+
+Theorem C10_finalized_iff_closed_raising :
+  forall RS render n term fr c rs0 s ops,
+    mk RS n term c rs0 = inl s ->
+    let s' := frun RS render n term fr s ops in
+    owns (gh s') = c_owns c /\
+    (closed s' = true -> c_owns c = true -> finalized (gh s') = true /\ fin_calls (gh s') = 1%nat) /\
+    (closed s' = true -> c_owns c = false -> finalized (gh s') = false /\ fin_calls (gh s') = 0%nat) /\
+    (closed s' = false -> finalized (gh s') = false /\ fin_calls (gh s') = 0%nat).
+Proof. exact finalized_iff_closed_raising. Qed.
+Print Assumptions C10_finalized_iff_closed_raising.
+
+Theorem C10_no_render_on_finalized_raising :
+  forall RS render n term fr c rs0 s ops,
+    mk RS n term c rs0 = inl s ->
+    Forall (fun rc => rc_finalized rc = false) (log (gh (frun RS render n term fr s ops))).
+Proof. exact no_render_on_finalized_raising. Qed.
+Print Assumptions C10_no_render_on_finalized_raising.
+
+(** [finalize()] after a first call — whether or not the finalizer raised in it: the flag
+    is set, a repeated call invokes nothing and raises nothing *)
+Theorem C10_finalize_idempotent_raising :
+  forall fr g,
+    let g1 := fst (fdata_finalize fr g) in
+    finalized g1 = true /\
+    fdata_finalize fr g1 = (g1, false) /\
+    (fin_calls g1 <= S (fin_calls g))%nat /\
+    (snd (fdata_finalize fr g) = true ->
+     finalized g = false /\ fin_calls g1 = S (fin_calls g) /\ fr (fin_calls g) = true).
+Proof. exact finalize_idempotent_raising. Qed.
+Print Assumptions C10_finalize_idempotent_raising.
+
+(** the operation in which the finalizer raises ([next], [close()] or [__del__], on an
+    open owning iterator, first invocation) leaves the iterator closed, the data finalized
+    by exactly one call *)
+Theorem C10_raised_closes :
+  forall RS render n term fr (s : state RS) o x,
+    fin_inv RS s -> snd (fstep RS render n term fr s o) = FRaised x ->
+    let s' := fst (fstep RS render n term fr s o) in
+    closed s = false /\ closed s' = true /\ owns (gh s') = true /\
+    finalized (gh s') = true /\ fin_calls (gh s') = 1%nat /\ fr 0%nat = true /\
+    (o = Next \/ o = Close \/ o = Drop).
+Proof. exact raised_closes. Qed.
+Print Assumptions C10_raised_closes.
+
+(** ... and every continuation of the history behaves as on any closed iterator: [next]
+    stops, control operations raise FinalizedIteratorError, [close()] / drop return
+    normally; nothing raises the finalizer's exception again, nothing changes *)
+Theorem C10_closed_after_raising_finalizer :
+  forall RS render n term fr c rs0 s ops o x ops',
+    mk RS n term c rs0 = inl s ->
+    snd (fstep RS render n term fr (frun RS render n term fr s ops) o) = FRaised x ->
+    let s' := frun RS render n term fr s (ops ++ [o]) in
+    closed s' = true /\ finalized (gh s') = true /\ fin_calls (gh s') = 1%nat /\
+    frun RS render n term fr s' ops' = s' /\
+    ftrace RS render n term fr s' ops' = map (fun o => (FO (closed_out o), pub_loop s')) ops'.
+Proof. exact closed_after_raising_finalizer. Qed.
+Print Assumptions C10_closed_after_raising_finalizer.
+
+(** in any history the finalizer's exception is seen at most once *)
+Theorem C10_raise_at_most_once :
+  forall RS render n term fr ops (s : state RS),
+    fin_inv RS s -> (raises (ftrace RS render n term fr s ops) <= 1)%nat.
+Proof. exact raise_at_most_once. Qed.
+Print Assumptions C10_raise_at_most_once.
+
+(** one-shot operations, [try: body finally: render_data.finalize()] on fresh data
+    followed by the data's garbage collection: one invocation in all, flag set,
+    [RenderData.__del__] invokes nothing more; the finalizer's exception wins *)
+Theorem C10_oneshot_exactly_once :
+  forall fr body_raises,
+    let g1 := fst (try_finally_finalize fr body_raises fresh_data) in
+    let o := snd (try_finally_finalize fr body_raises fresh_data) in
+    fin_calls g1 = 1%nat /\ finalized g1 = true /\ del_data fr g1 = (g1, false) /\
+    (o = FinalizerRaised <-> fr 0%nat = true) /\
+    (fr 0%nat = false -> o = if body_raises then BodyRaised else Returned).
+Proof. exact oneshot_exactly_once. Qed.
+Print Assumptions C10_oneshot_exactly_once.
+
+(** data left to [RenderData.__del__] (draw()'s validation failure, a half-built object) *)
+Theorem C10_del_exactly_once :
+  forall fr,
+    let g1 := fst (del_data fr fresh_data) in
+    fin_calls g1 = 1%nat /\ finalized g1 = true /\ del_data fr g1 = (g1, false).
+Proof. exact del_exactly_once. Qed.
+Print Assumptions C10_del_exactly_once.
 
 (** ** Part 2: control-flow skeletons *)
 
